@@ -20,6 +20,7 @@ included, no re-boxing thanks to try_downcast::<Route>) under the path recorded 
 route_layer wraps exactly the routes present at call time and keeps matcher and fallback; Router has
 no field that could retain a layer for later routes; add_rpc_service registers "/" + SERVICE_NAME +
 "/*rest". The remote-reachable panic inventory of the routing code contains only that justified expect.
+The request-header conversion is total and field-to-field, so every decodable route string reaches the router (C07.4 re-evaluated).
 """
 TRUSTED = ["matchit 0.5 matching semantics and freedom from panics on arbitrary strings (third-party body, not analysed)", "BTreeMap/HashMap semantics"]
 NOT_DECIDED = ["matchit's wildcard precedence ('exactly the matching pattern')", "panics inside matchit on odd route strings"]
